@@ -545,6 +545,13 @@ func genNet(rng *rand.Rand, i, msgs int) NetSpec {
 		if ns.Dims[0]*ns.Dims[1] == 1 {
 			ns.Dims[0] = 2
 		}
+		if i%8 == 4 && rng.Intn(4) == 0 {
+			// a long thin mesh: longer than the connector's initial grid capacity (8), so the grid is resized
+			ns.Dims = []int{9 + rng.Intn(2), 1, 1}
+			if rng.Intn(2) == 0 {
+				ns.Dims[0], ns.Dims[1] = 1, ns.Dims[0]
+			}
+		}
 	case 1: // 3D mesh
 		ns.Kind, ns.Class, ns.Shape = "mesh", "mesh", "mesh3d"
 		ns.Dims = []int{1 + rng.Intn(3), 1 + rng.Intn(3), 2 + rng.Intn(2)}
